@@ -442,11 +442,31 @@ def Pipeline (env : Env) : Prop :=
     (reach env pre).nextRid ≤ rid →
     Out.sar t ∈ (runSteps env (reach env pre) (.sarBegin rid host attrs ch (some u) :: post)).2 → t.rid = rid →
     (t.res.err = none ∨ t.ep.isSome = true) →
-      SarJudge env ⟨some u, true, attrs, t.res, t.time, t.ep.isSome⟩)
+      SarJudge env ⟨some u, true, attrs, t.res, t.time, t.ep.isSome⟩) ∧
+  -- last stage: the cluster that receives the proxied request is the cluster the request is bound to — hence (two
+  -- clauses above) the cluster whose oracle produced its authentication and every authorization used for it
+  (∀ (pre : List Step) (host : Str) (u : Inst) (ch : Nat) (d : DispOut) (c : Inst),
+    Out.disp d ∈ (step env (reach env pre) (.dispatch host (some u) ch)).2 → d.proxied = some c →
+      c = u ∧ (readyOf (reach env pre) u ≠ []))
 
 /-- with both checks in place the full statement holds, for every oracle behaviour, TTL configuration and history -/
-theorem c12_pipeline_of_binding (env : Env) (h1 : env.cfg.bindTok = true) (h2 : env.cfg.bindSar = true) : Pipeline env := by
-  refine ⟨?_, ?_⟩
+theorem c12_pipeline_of_binding (env : Env) (h1 : env.cfg.bindTok = true) (h2 : env.cfg.bindSar = true)
+    (h3 : env.cfg.bindDisp = true) : Pipeline env := by
+  refine ⟨?_, ?_, ?_⟩
+  rotate_left 2
+  · intro pre host u ch d c hd hp
+    simp only [step, dispatch, h3, if_true, List.mem_singleton] at hd
+    cases hd
+    simp only at hp
+    cases hpk : pickOne (reach env pre) u ch with
+    | none => rw [hpk] at hp; cases hp
+    | some e =>
+      rw [hpk] at hp
+      simp only [Option.map_some, Option.some.injEq] at hp
+      refine ⟨hp.symm, fun hnil => ?_⟩
+      have := pickOne_mem hpk
+      rw [hnil] at this
+      cases this
   · intro pre post rid host tok ch u t hfresh ht hr hne
     obtain ⟨_, _, _, _, hj, hb⟩ := c12_token env pre post rid host tok ch (some u) hfresh t ht hr
     obtain ⟨c, hg, hready, hbe⟩ := hb hne
@@ -466,13 +486,15 @@ theorem c12_pipeline_of_binding (env : Env) (h1 : env.cfg.bindTok = true) (h2 : 
 
 /-- the configuration the source has NOW: the two flags as the extractor reads them from /repo on every run -/
 def fromSource (env : Env) : Env :=
-  { env with cfg := { env.cfg with bindTok := KG.Gen.C12.bindsTokenToUpstream, bindSar := KG.Gen.C12.bindsSarToUpstream } }
+  { env with cfg := { env.cfg with bindTok := KG.Gen.C12.bindsTokenToUpstream, bindSar := KG.Gen.C12.bindsSarToUpstream,
+                                   bindDisp := KG.Gen.C12.dispatcherUsesBoundCluster } }
 
 /-- **the current tree**: the full statement, unconditionally (this is the configuration the correspondence harness
     runs the model with; it stops checking the moment one of the two comparisons disappears from the source) -/
 theorem c12_pipeline (env : Env) : Pipeline (fromSource env) :=
   c12_pipeline_of_binding (fromSource env)
     (show KG.Gen.C12.bindsTokenToUpstream = true by decide) (show KG.Gen.C12.bindsSarToUpstream = true by decide)
+    (show KG.Gen.C12.dispatcherUsesBoundCluster = true by decide)
 
 /-! ## where reviews go -/
 
@@ -595,11 +617,11 @@ def exMove : List Step := [.ev (.addWithKey hostX 1), .ev (.tick 1)]
 
 def tokResOf : Out → Option (TokRes × Src)
   | .tok t => some (t.res, t.src)
-  | .sar _ => none
+  | _ => none
 
 def sarResOf : Out → Option (Decision × Src)
   | .sar t => some (t.res.decision, t.src)
-  | .tok _ => none
+  | _ => none
 
 /-- alias moved between two requests: the second answer is cluster 1's own, not the cached answer of cluster 0 -/
 example : (runSteps exEnv init (exSetup ++ tokSteps 0 hostX [116] 0 0 ++ exMove ++ tokSteps 1 hostX [116] 0 0)).2.map tokResOf =
@@ -665,6 +687,23 @@ theorem c12_pipeline_refuted_without_binding : ∃ env : Env, env.cfg.bindTok = 
 example : (runSteps (fromSource exEnv) init (exSetup1 ++ tokSteps 0 hostX [116] 0 0 (some 1) ++ sarSteps 1 hostX exAttrs 0 (some 1))).2.map
       (fun o => (tokResOf o, sarResOf o)) =
     [(some (.error .moved, .none), none), (none, some (.deny, .none))] := by decide
+
+/-- a dispatcher that resolves the host again at dispatch time: the request, authenticated and authorized by the cluster
+    it is bound to (1), is proxied to the cluster the name has moved to meanwhile (0) — kernel-checked refutation of the
+    last clause of the full statement, with both other checks in place -/
+theorem c12_pipeline_refuted_without_dispatch_binding :
+    ∃ env : Env, env.cfg.bindTok = true ∧ env.cfg.bindSar = true ∧ env.cfg.bindDisp = false ∧ ¬ Pipeline env := by
+  refine ⟨{ exEnv with cfg := { exEnv.cfg with bindTok := true, bindSar := true } }, rfl, rfl, rfl, fun h => ?_⟩
+  have := (h.2.2 exSetup1 hostX 1 0 ⟨hostX, some 1, some 0, some 0, 0⟩ 0 (by decide) rfl).1
+  cases this
+
+/-- the whole chain as the harness schedules it (`Macro.pipe`), current source: bound to 0, the name moves to 1 after the
+    impersonation check and before the dispatcher: still proxied to 0, the cluster that authenticated and authorized -/
+example : ((runMacros (fromSource exEnv) ⟨init, [], []⟩
+      [.ev (.setEndpoint 0 [101] true false), .ev (.setEndpoint 1 [102] true false), .ev (.addWithKey hostX 0),
+       .pipe hostX [116] (some exAttrs) [] [] [] [] [] [.ev (.addWithKey hostX 1)]]).outs.map
+        (fun o => match o with | .disp d => (d.upstream, d.proxied) | _ => (none, none))) =
+    [(none, none), (none, none), (some 0, some 0)] := by decide
 
 /-- a bound request whose host did not move is served as before -/
 example : (runSteps (fromSource exEnv) init (exSetup ++ tokSteps 0 hostX [116] 0 0 (some 0))).2.map tokResOf =
